@@ -280,7 +280,7 @@ pub fn all() -> Vec<PropDef> {
         },
         PropDef {
             id: "C20",
-            rule: "negative programs, one defect each, every one with a positive twin that differs only in the defect: type without a path, variant without an index, field without a type, named member among unnamed, unnamed among named, member on a unit field set - in compile-time and portable form, struct and variant position, with surrounding setters varied and with builder states obtained through Default::default(); derive: unions, unknown item-level scale_info keys, repeated bounds / skip_type_params / capture_docs / crate (same list, separate attributes, other attributes in between), invalid capture_docs strings, bounds(..) leaving a non-skipped parameter unbound; oracle = twin compiles, negative does not, no typo-class error, builder negatives fail with a type error at the builder call, derive negatives additionally leave `X: TypeInfo` unsatisfied at a use site; non-trivial = every program, distinct by source text",
+            rule: "negative programs, one defect each, every one with a positive twin that differs only in the defect: type without a path, variant without an index, field without a type, named member among unnamed, unnamed among named, member on a unit field set - in compile-time and portable form, struct and variant position, with surrounding setters varied and with builder states obtained through Default::default(); derive: unions, unknown item-level scale_info keys, repeated bounds / skip_type_params / capture_docs / crate (same list, separate attributes, other attributes in between), invalid capture_docs strings, bounds(..) leaving a non-skipped parameter unbound (fixed templates plus generated definitions of 2-4 parameters each bounded / skipped / both / neither), and generated attribute layouts (known keys spread over 1-4 lists with other attributes in between, the repeated or unknown key at any position, struct / tuple struct / enum); oracle = twin compiles, negative does not, no typo-class error, builder negatives fail with a type error at the builder call, derive negatives additionally leave `X: TypeInfo` unsatisfied at a use site; non-trivial = every program, distinct by source text",
             assumptions: &["the wording of scale-info's error messages is never matched", "unknown scale_info keys on members are outside the anchored item-level parser and not generated"],
             subs: c20_subs,
             extra: None,
